@@ -1,7 +1,6 @@
 package consul
 
 import (
-	"fmt"
 	"log"
 	"sort"
 	"strings"
@@ -62,19 +61,25 @@ func (w *ServiceMonitor) Watch(updates chan string) {
 	}
 }
 
+// instanceKey identifies a service instance cluster wide. Node names and
+// service ids may both contain dots, so a joined string is not unique.
+type instanceKey struct {
+	node, serviceID string
+}
+
 // makeConfig determines which service instances have passing health checks
 // and then finds the ones which have tags with the right prefix to build the config from.
 func (w *ServiceMonitor) makeConfig(checks []*api.HealthCheck) string {
 	// map service name to list of service passing for which the health check is ok
-	m := map[string]map[string]bool{}
+	m := map[string]map[instanceKey]bool{}
 	for _, check := range checks {
 		// Make the node part of the id, because according to the Consul docs
 		// the ServiceID is unique per agent but not cluster wide
 		// https://www.consul.io/api/agent/service.html#id
-		name, id := check.ServiceName, fmt.Sprintf("%s.%s", check.Node, check.ServiceID)
+		name, id := check.ServiceName, instanceKey{check.Node, check.ServiceID}
 
 		if _, ok := m[name]; !ok {
-			m[name] = map[string]bool{}
+			m[name] = map[instanceKey]bool{}
 		}
 		m[name][id] = true
 	}
@@ -108,7 +113,7 @@ func (w *ServiceMonitor) makeConfig(checks []*api.HealthCheck) string {
 }
 
 // serviceConfig constructs the config for all good instances of a single service.
-func (w *ServiceMonitor) serviceConfig(name string, passing map[string]bool) (config []string) {
+func (w *ServiceMonitor) serviceConfig(name string, passing map[instanceKey]bool) (config []string) {
 	if name == "" || len(passing) == 0 {
 		return nil
 	}
@@ -126,7 +131,7 @@ func (w *ServiceMonitor) serviceConfig(name string, passing map[string]bool) (co
 
 	for _, svc := range svcs {
 		// check if this instance passed the health check
-		if _, ok := passing[svc.Node+"."+svc.ServiceID]; !ok {
+		if _, ok := passing[instanceKey{svc.Node, svc.ServiceID}]; !ok {
 			continue
 		}
 
